@@ -62,6 +62,7 @@ fixed("FX-C06-07", "C06", "e35cc2f", "Decoder.Decode of \"\\xff\\u0041\" (ill-fo
 fixed("FX-C09-08", "C09", "e35cc2f", "a >500-byte document with ill-formed UTF-8 in strings, cut at 510, made Decoder fail with io.ErrNoProgress (zero-length Read: no room left in a buffer that was not flagged full); Unmarshal decodes it")
 fixed("FX-C05-04", "C05", "13c8293", "a Decoder fed 3 bytes at a time accepted {\"A\":\"\",\" \\\"  :  2933322023 } (unterminated key): refill right behind a backslash in an unknown struct key resumed on the escaped byte (found by the chunked stream entries added to C05 for seeded change C05c)")
 fixed("FX-C10-04", "C10", "4f16a78", "32 goroutines encoding []T of a recursive T (or a struct with an interface member) for the first time under GC pressure: the programs of the goroutines that lost the cache publication were collected while running a nested program (return address held as uintptr only): 'encoder: opcode  has not been implemented', wrong output, 'found bad pointer in Go heap', SIGSEGV in vm.Run; present in the original tree")
+fixed("FX-C05-05", "C05", "189c5fc", "Valid(\"\\\"\\\\uZZZZ\\\"\") was true: the stream string decoder did not check the hex digits of \\u escapes (was KF-C05-08, KF-C18-V08, KF-C09-R04)")
 fixed("FX-C15-01", "C15", "57be1d1", "Decoder fed 5-byte chunks failed on fully \\u-escaped keys")
 
 fixed("FX-C06-04", "C06", "0243e9f", "Compact/Indent of a 100000-deep tower: fatal out of memory / stack overflow (no nesting limit)")
@@ -111,10 +112,6 @@ known("KF-C05-05", "C05", M, STREAM, "ok-vs-err", r"relax=stream:nul-skipped",
 known("KF-C05-05b", "C05", M, STREAM, "ok-vs-err", r"relax=stream:nul-skipped-unmodelled",
       'a Decoder fed 2 bytes at a time accepts "\\x00}{": NUL bytes met while the reader can still deliver data are stepped over, here in positions the recogniser\'s nul-skipped relaxation does not model',
       "see KF-C05-05", "other stream-only acceptances of texts with an embedded NUL", "same sentinel design as KF-C05-03")
-known("KF-C05-08", "C05", M, STREAM, "ok-vs-err", r"relax=stream:hex-unchecked",
-      'Valid("\\"\\\\uZZZZ\\"") is true',
-      "internal/decoder/string.go stream \\u handling does not validate the four hex digits",
-      "other bad-\\u acceptances in stream mode", "needs validation in the stream unescape path")
 known("KF-C05-09", "C05", M, STREAM, "ok-vs-err", r"relax=stream:leading-comma-or-colon-skipped",
       'Valid(",0") and Valid(":0") are true',
       "internal/decoder/stream.go PrepareForDecode skips one ',' or ':' before every value (used for Token-driven streaming)",
@@ -134,8 +131,7 @@ known("KF-C05-12", "C05", M, "Valid", "err-vs-ok", r"valid-text-rejected:float64
 
 # ------------------------------------------------------------------ C18
 C18_VALID = [("01", r"relax=num:parsefloat-grammar", "KF-C05-01"), ("02", r"relax=str:raw-ctl", "KF-C05-02"), ("03", r"relax=nul-terminates", "KF-C05-03"),
-             ("04", r"relax=skip:unvalidated", "KF-C05-04"), ("05", r"relax=stream:nul-skipped", "KF-C05-05"), ("08", r"relax=stream:hex-unchecked", "KF-C05-08"),
-             ("09", r"relax=stream:leading-comma-or-colon-skipped", "KF-C05-09"), ("10", r"relax=stream:skip-ignores-junk-before-value", "KF-C05-10"),
+             ("04", r"relax=skip:unvalidated", "KF-C05-04"), ("05", r"relax=stream:nul-skipped", "KF-C05-05"), ("09", r"relax=stream:leading-comma-or-colon-skipped", "KF-C05-09"), ("10", r"relax=stream:skip-ignores-junk-before-value", "KF-C05-10"),
              ("11", r"relax=stream:trailing-after-top", "KF-C05-11")]
 for n, ctx, same in C18_VALID:
     known("KF-C18-V" + n, "C18", "util-valid", "Valid", "ok-vs-err", ctx,
@@ -383,7 +379,7 @@ known("KF-C15-08", "C15", "member-names", "Marshal", r"members-differ", r"embedd
 # ------------------------------------------------------------------ C09
 SB = "stream-vs-buffer"
 for n, rx, same in (("01", "stream:nul-skipped", "KF-C05-05"), 
-                    ("04", "stream:hex-unchecked", "KF-C05-08"), ("05", "stream:leading-comma-or-colon-skipped", "KF-C05-09"), ("06", "stream:skip-ignores-junk-before-value", "KF-C05-10"),
+                    ("05", "stream:leading-comma-or-colon-skipped", "KF-C05-09"), ("06", "stream:skip-ignores-junk-before-value", "KF-C05-10"),
                     ("07", "stream:trailing-after-top", "KF-C05-11"), ("08", "skip:unvalidated", "KF-C05-04"), ("09", "nul-terminates", "KF-C05-03"),
                     ("10", "num:parsefloat-grammar", "KF-C05-01"), ("11", "str:raw-ctl", "KF-C05-02")):
     known("KF-C09-R" + n, "C09", SB, None, r"verdict:stream-ok-buffer-err", r"relax=" + re.escape(rx),
